@@ -1,8 +1,9 @@
 // C35 harness: util/dijkstra Topology.SPT on generated digraphs.
 //
-// Input tokens:   s=<src> n=<id>,<id>,... e=<a>-<b>:<w>,...   (e= alone: no edges)
+// Input tokens:   s=<src>,<src>,... n=<id>,<id>,... e=<a>-<b>:<w>,...   (e= alone: no edges)
+//                 t := NewTopology(n, e); then t.SPT(src) for every src in turn ON THE SAME Topology
 //                 node i is dijkstra.Node{Name: "n<i>"}; duplicates in both lists are allowed
-// Observation:    one token per key of the returned SPT, sorted by id:
+// Observation:    per call (calls separated by the token &&) one token per key of the returned SPT, sorted by id:
 //                 <id>:<distance>:<a>-<b>:<w>/<a>-<b>:<w>/...   ("-" for an empty edge list)
 //                 or the single token PANIC / TIMEOUT
 //
@@ -32,7 +33,7 @@ type edge struct {
 }
 
 type gcase struct {
-	src   int
+	srcs  []int // successive SPT calls on one Topology
 	nodes []int
 	edges []edge
 }
@@ -54,19 +55,25 @@ func (c *gcase) String() string {
 	for _, e := range c.edges {
 		es = append(es, fmt.Sprintf("%d-%d:%d", e.a, e.b, e.w))
 	}
-	return fmt.Sprintf("s=%d n=%s e=%s", c.src, strings.Join(ns, ","), strings.Join(es, ","))
+	var ss []string
+	for _, x := range c.srcs {
+		ss = append(ss, strconv.Itoa(x))
+	}
+	return fmt.Sprintf("s=%s n=%s e=%s", strings.Join(ss, ","), strings.Join(ns, ","), strings.Join(es, ","))
 }
 
 func parseCase(in string) (*gcase, error) {
-	c := &gcase{src: -1}
+	c := &gcase{}
 	for _, t := range strings.Fields(in) {
 		switch {
 		case strings.HasPrefix(t, "s="):
-			v, err := strconv.Atoi(t[2:])
-			if err != nil {
-				return nil, err
+			for _, x := range strings.Split(t[2:], ",") {
+				v, err := strconv.Atoi(x)
+				if err != nil {
+					return nil, err
+				}
+				c.srcs = append(c.srcs, v)
 			}
-			c.src = v
 		case strings.HasPrefix(t, "n="):
 			for _, x := range strings.Split(t[2:], ",") {
 				if x == "" {
@@ -103,7 +110,7 @@ func parseCase(in string) (*gcase, error) {
 			return nil, fmt.Errorf("bad token %q", t)
 		}
 	}
-	if c.src < 0 || len(c.nodes) == 0 {
+	if len(c.srcs) == 0 || len(c.nodes) == 0 {
 		return nil, fmt.Errorf("missing s= or n=")
 	}
 	return c, nil
@@ -115,8 +122,10 @@ func (c *gcase) inDomain() bool {
 	for _, n := range c.nodes {
 		listed[n] = true
 	}
-	if !listed[c.src] {
-		return false
+	for _, x := range c.srcs {
+		if !listed[x] {
+			return false
+		}
 	}
 	var maxw int64
 	for _, e := range c.edges {
@@ -138,34 +147,47 @@ type result struct {
 	spt    dijkstra.SPT
 }
 
-func runImpl(c *gcase) result {
-	ch := make(chan result, 1)
-	go func() {
+// runImpl: one Topology, the calls of c.srcs one after the other; stops at the first panic / hang
+func runImpl(c *gcase) []result {
+	var out []result
+	var topo *dijkstra.Topology
+	for k, src := range c.srcs {
+		ch := make(chan result, 1)
+		go func() {
+			var r result
+			panicked, val := hx.Guard(func() {
+				if k == 0 {
+					ns := make([]dijkstra.Node, len(c.nodes))
+					for i, n := range c.nodes {
+						ns[i] = nodeOf(n)
+					}
+					es := make([]dijkstra.Edge, len(c.edges))
+					for i, e := range c.edges {
+						es[i] = dijkstra.Edge{NodeA: nodeOf(e.a), NodeB: nodeOf(e.b), Distance: e.w}
+					}
+					topo = dijkstra.NewTopology(ns, es)
+				}
+				r.spt = topo.SPT(nodeOf(src))
+			})
+			if panicked {
+				r = result{status: "PANIC", detail: fmt.Sprint(val)}
+			}
+			ch <- r
+		}()
+		tm := time.NewTimer(10 * time.Second)
 		var r result
-		panicked, val := hx.Guard(func() {
-			ns := make([]dijkstra.Node, len(c.nodes))
-			for i, n := range c.nodes {
-				ns[i] = nodeOf(n)
-			}
-			es := make([]dijkstra.Edge, len(c.edges))
-			for i, e := range c.edges {
-				es[i] = dijkstra.Edge{NodeA: nodeOf(e.a), NodeB: nodeOf(e.b), Distance: e.w}
-			}
-			r.spt = dijkstra.NewTopology(ns, es).SPT(nodeOf(c.src))
-		})
-		if panicked {
-			r = result{status: "PANIC", detail: fmt.Sprint(val)}
+		select {
+		case r = <-ch:
+		case <-tm.C:
+			r = result{status: "TIMEOUT", detail: "SPT did not return within 10s"}
 		}
-		ch <- r
-	}()
-	tm := time.NewTimer(10 * time.Second)
-	defer tm.Stop()
-	select {
-	case r := <-ch:
-		return r
-	case <-tm.C:
-		return result{status: "TIMEOUT", detail: "SPT did not return within 10s"}
+		tm.Stop()
+		out = append(out, r)
+		if r.status != "" {
+			break
+		}
 	}
+	return out
 }
 
 func fmtEdges(es []dijkstra.Edge) string {
@@ -224,7 +246,7 @@ type specInfo struct {
 	maxhops int
 }
 
-func spec(c *gcase) *specInfo {
+func spec(c *gcase, src int) *specInfo {
 	s := &specInfo{dist: map[int]int64{}, hops: map[int]int{}, w: map[[2]int]int64{}}
 	for _, e := range c.edges {
 		s.w[[2]int{e.a, e.b}] = e.w // the last entry counts
@@ -232,8 +254,8 @@ func spec(c *gcase) *specInfo {
 	for _, n := range c.nodes {
 		s.dist[n] = inf
 	}
-	s.dist[c.src] = 0
-	s.hops[c.src] = 0
+	s.dist[src] = 0
+	s.hops[src] = 0
 	for round := 0; round < len(s.dist)+1; round++ {
 		changed := false
 		for k, w := range s.w {
@@ -254,7 +276,7 @@ func spec(c *gcase) *specInfo {
 	for n, d := range s.dist {
 		if d == inf {
 			s.unreach++
-		} else if n != c.src {
+		} else if n != src {
 			s.reach++
 			if s.hops[n] > s.maxhops {
 				s.maxhops = s.hops[n]
@@ -265,7 +287,7 @@ func spec(c *gcase) *specInfo {
 }
 
 // judge evaluates the property's statement on one result of the implementation
-func judge(c *gcase, s *specInfo, r result) (sig, detail string) {
+func judge(src int, s *specInfo, r result) (sig, detail string) {
 	switch r.status {
 	case "PANIC":
 		if s.unreach > 0 {
@@ -293,7 +315,7 @@ func judge(c *gcase, s *specInfo, r result) (sig, detail string) {
 			return "distance-not-minimal", fmt.Sprintf("node %d distance=%d minimal=%d", n, p.Distance, want)
 		}
 		// the edge list is a path src -> n along existing edges, of weight p.Distance
-		at := nodeOf(c.src)
+		at := nodeOf(src)
 		var sum int64
 		for i, e := range p.Edges {
 			ia, oka := idOf(e.NodeA)
@@ -343,13 +365,20 @@ func exhaustive(n int, maxw int, loops bool, allSources bool, f func(*gcase)) {
 				es = append(es, edge{p[0], p[1], int64(choice[i] - 1)})
 			}
 		}
-		ns := 1
+		// one Topology, several calls: every source in turn and the first again / sources 0 and n-1
+		var srcs []int
 		if allSources {
-			ns = n
+			for s := 0; s < n; s++ {
+				srcs = append(srcs, s)
+			}
+			srcs = append(srcs, 0)
+		} else {
+			srcs = []int{0}
+			if n > 1 {
+				srcs = append(srcs, n-1)
+			}
 		}
-		for s := 0; s < ns; s++ {
-			f(&gcase{src: s, nodes: nodes, edges: es})
-		}
+		f(&gcase{srcs: srcs, nodes: nodes, edges: es})
 		i := 0
 		for i < len(choice) {
 			choice[i]++
@@ -412,7 +441,15 @@ func genRandom(r *hx.RNG, t *hx.Trace) *gcase {
 		c.nodes = append(c.nodes, perm[r.Intn(n)])
 		t.Count("dup_node")
 	}
-	c.src = r.Intn(n)
+	// 1-4 calls on the topology; the same source may come again
+	for i, k := 0, 1+r.Intn(4); i < k; i++ {
+		if i > 0 && r.Chance(25) {
+			c.srcs = append(c.srcs, c.srcs[r.Intn(i)])
+		} else {
+			c.srcs = append(c.srcs, r.Intn(n))
+		}
+	}
+	t.Count(fmt.Sprintf("calls_%d", len(c.srcs)))
 	for a := 0; a < n; a++ {
 		for b := 0; b < n; b++ {
 			if a == b && !r.Chance(30) {
@@ -453,33 +490,50 @@ func main() {
 			fmt.Printf("HARNESS-ERROR case=%s outside the property's domain: %s\n", id, c.String())
 			return
 		}
-		s := spec(c)
-		nt := s.reach > 0 && (s.unreach > 0 || s.maxhops >= 2)
-		if s.unreach > 0 {
-			tr.Count("has_unreachable")
+		specs := map[int]*specInfo{}
+		nt := false
+		for _, src := range c.srcs {
+			if specs[src] == nil {
+				s := spec(c, src)
+				specs[src] = s
+				nt = nt || (s.reach > 0 && (s.unreach > 0 || s.maxhops >= 2))
+				if s.unreach > 0 {
+					tr.Count("has_unreachable")
+				}
+				if s.maxhops >= 2 {
+					tr.Count("multi_hop")
+				}
+			}
 		}
-		if s.maxhops >= 2 {
-			tr.Count("multi_hop")
-		}
-		var first result
+		var first []result
 		sig, detail := "", ""
 		for k := 0; k < runs; k++ {
-			r := runImpl(c)
+			rs := runImpl(c)
 			if k == 0 {
-				first = r
+				first = rs
 			}
-			if sg, d := judge(c, s, r); sg != "" && sig == "" {
-				sig, detail = sg, d
-				first = r // report the failing run
-			}
-			if r.status != "" {
-				if r.status == "TIMEOUT" {
-					hung = true
+			stop := false
+			for j, r := range rs {
+				if sg, d := judge(c.srcs[j], specs[c.srcs[j]], r); sg != "" && sig == "" {
+					sig, detail = sg, fmt.Sprintf("call %d of %d (source %d): %s", j+1, len(c.srcs), c.srcs[j], d)
+					first = rs // report the failing run
 				}
+				if r.status != "" {
+					stop = true
+					if r.status == "TIMEOUT" {
+						hung = true
+					}
+				}
+			}
+			if stop {
 				break
 			}
 		}
-		tr.Case(id, nt, c.String(), observe(first))
+		var obs []string
+		for _, r := range first {
+			obs = append(obs, observe(r))
+		}
+		tr.Case(id, nt, c.String(), strings.Join(obs, " && "))
 		if sig != "" {
 			hx.Violation(id, sig, detail+" input: "+c.String())
 			nviol++
